@@ -78,12 +78,17 @@ def _init_worker():
     world.install()
 
 
+_HIST = []   # indices of the cases this worker process has executed so far, in order
+
+
 def _mk_explore(pid, seed, tier):
     mod = load(pid)
 
     def work(i):
         case = mod.gen_case(seed, i, tier)
         res = mod.execute(case)
+        prev = list(_HIST)
+        _HIST.append(i)
         out = {
             "i": i,
             "clauses": mod.violation_clauses(res),
@@ -94,8 +99,60 @@ def _mk_explore(pid, seed, tier):
             "work": res.get("work", 0),
             "sim_s": res.get("elapsed", 0.0),
         }
+        if out["clauses"]:
+            out["hist"] = prev
         return out
     return work
+
+
+def _mk_history_run(pid, seed, tier):
+    """Run a sequence of cases in one fresh process; report the clauses of the last one."""
+    mod = load(pid)
+
+    def work(task):
+        hist, i = task
+        for h in hist:
+            try:
+                mod.execute(mod.gen_case(seed, h, tier))
+            except Exception:
+                pass
+        res = mod.execute(mod.gen_case(seed, i, tier))
+        return {"clauses": mod.violation_clauses(res), "violations": res.get("violations", []), "digest": res.get("digest")}
+    return work
+
+
+def reproduce_with_history(pool, pid, seed, tier, hist, i, clause, nproc):
+    """A violation that does not reproduce alone may need what the same process evaluated
+    before (state leaking between contexts).  Re-run the worker's history in a fresh process
+    and shrink it (greedy halving, then single removals) while the clause still fails."""
+    def fails(h):
+        r = pool.run_pool([(h, i)], _mk_history_run(pid, seed, tier), _init_worker, nproc=1, timeout_s=1200)[0]
+        return bool(r) and "_harness" not in r and clause in r["clauses"], r
+    ok, r = fails(hist)
+    if not ok:
+        return None
+    budget = 24
+    changed = True
+    while changed and budget > 0 and len(hist) > 0:
+        changed = False
+        half = len(hist) // 2
+        for cand in ((hist[half:], hist[:half]) if half else ()):
+            budget -= 1
+            ok2, r2 = fails(cand)
+            if ok2:
+                hist, r, changed = cand, r2, True
+                break
+        if not changed and len(hist) <= 6:
+            for k in range(len(hist)):
+                cand = hist[:k] + hist[k + 1:]
+                budget -= 1
+                ok2, r2 = fails(cand)
+                if ok2:
+                    hist, r, changed = cand, r2, True
+                    break
+                if budget <= 0:
+                    break
+    return hist, r
 
 
 def _mk_minimise(pid, seed, tier):
@@ -146,6 +203,9 @@ def write_replay(pid, mini, seed):
         "case": mini["case"],
         "expect": {"digest": mini["result"].get("digest"), "violations": mini["result"].get("violations")},
     }
+    if mini.get("history"):
+        # cases the same process has to evaluate first (state leaking between contexts)
+        doc["history"] = mini["history"]
     json.dump(doc, open(path, "w"), indent=1, sort_keys=True, default=repr)
     return path
 
@@ -161,6 +221,11 @@ def cmd_replay(path):
         return rc
     import world
     world.install()
+    for h in doc.get("history", []):
+        try:
+            mod.execute(h)
+        except Exception:
+            pass
     res = mod.execute(doc["case"])
     clauses = mod.violation_clauses(res)
     same_digest = (res.get("digest") == doc.get("expect", {}).get("digest"))
@@ -257,8 +322,19 @@ def cmd_check(pid, tier, n_override=None, nproc=None, budget_s=None):
                 harness_errors.append("minimise %d %s: %s" % (i, clause, m))
                 continue
             if not m["reproduced"]:
-                harness_errors.append("case %d clause %s did not reproduce in a second run" % (i, clause))
-                continue
+                hist = next((r.get("hist") for r in ok if r["i"] == i), None) or []
+                rep = reproduce_with_history(pool, pid, seed, tier, hist, i, clause, nproc) if hist else None
+                if rep is None:
+                    harness_errors.append("case %d clause %s did not reproduce in a second run" % (i, clause))
+                    continue
+                hmin, rr = rep
+                case = mod.gen_case(seed, i, tier)
+                from common import sha1 as _sha1
+                feats = sorted(set(mod.features(case, {}) + ["needs-history"]))
+                m = {"reproduced": True, "case": case, "clause": clause, "features": feats,
+                     "history": [mod.gen_case(seed, h, tier) for h in hmin],
+                     "exact": _sha1([mod.normalise(case) if hasattr(mod, "normalise") else i, clause, "history"]),
+                     "result": {"violations": rr["violations"], "digest": rr.get("digest")}}
             f = match_finding(findings, pid, clause, m["features"])
             if f is not None:
                 known_seen[f["id"]] = known_seen.get(f["id"], 0) + 1
@@ -272,6 +348,8 @@ def cmd_check(pid, tier, n_override=None, nproc=None, budget_s=None):
         for v in m["result"].get("violations", [])[:3]:
             print("  %s: %s" % (v["clause"], v["detail"]))
         print("  minimal features: %s" % ", ".join(m["features"]))
+        if m.get("history"):
+            print("  reproduces only after %d earlier case(s) in the same process (kept in the replay file)" % len(m["history"]))
         exit_code = 1
     for f in findings:
         if f["id"] in known_seen:
@@ -287,7 +365,7 @@ def cmd_check(pid, tier, n_override=None, nproc=None, budget_s=None):
             again = json.loads(out.stdout.strip().splitlines()[-1])
             first = {r["i"]: r["digest"] for r in ok}
             diff = [i for i in sample if first.get(i) != again.get(str(i))]
-            if diff:
+            if diff and not any(m.get("history") for _, m in new_violations.values()):
                 harness_errors.append("nondeterministic digests for cases %s" % diff[:10])
         except Exception as e:  # noqa
             harness_errors.append("determinism spot check failed to run: %r" % (e,))
